@@ -38,7 +38,21 @@ Definition lin_parts_tie (file : list N) : option (list (N * N * N) * N) :=
       let pages := ar_pages r in
       let root := match dict_get (sf_trailer sf) n_Root with Some (SpRef x _) => x | _ => 0 end in
       let catd := match af_find objs root with Some c => match so_val c with SpDict d => d | _ => [] end | None => [] end in
-      let page_sets := map (fun p => cont (af_page_needs fuel objs p)) pages in
+      let thumb_raw := map (fun p => match af_find objs p with
+                                      | Some o => match so_val o with
+                                                  | SpDict d => match dict_get d afn_Thumb with
+                                                               | Some v => af_closure fuel objs (af_refs v) []
+                                                               | None => []
+                                                               end
+                                                  | _ => []
+                                                  end
+                                      | None => [] end) pages in
+      (* updateObjectMaps uses ONE visited set per page for the page and its thumbnail, and the /Thumb entry is popped before the
+         entries that sort before it: what the thumbnail reaches is attributed to the thumbnail only and is not entered again *)
+      let page_sets := map (fun pt => match af_find objs (fst pt) with
+                                      | Some o => cont (filter (fun n => negb (af_mem n (snd pt)))
+                                                          (af_closure fuel objs (af_refs_skip [afn_Parent; afn_Thumb] (so_val o)) (fst pt :: snd pt)))
+                                      | None => [fst pt] end) (combine pages thumb_raw) in
       let thumb_sets := map (fun p => match af_find objs p with
                                       | Some o => match so_val o with
                                                   | SpDict d => match dict_get d afn_Thumb with
